@@ -168,9 +168,12 @@ theorem sig1_b (wf : d.WF) {x : Key} (hx : x ∈ d.canon) :
   have := wf.heven
   have := wf.hfan
   have := wf.hh
-  unfold Dims.sig1 at g9 ⊢
-  simp only at *
-  omega
+  have hb' : (d.sig1 x).2.2.2 = Int.tmod x.2.2.2 d.N + d.N - (x.2.2.2 - x.2.1) := rfl
+  rw [hb'] at g9 ⊢
+  refine ⟨?_, rfl, ?_, ?_⟩
+  · rcases h9 with h9 | h9 <;> rcases g9 with g9 | g9 <;> omega
+  · rcases h9 with h9 | h9 <;> omega
+  · rcases h9 with h9 | h9 <;> omega
 
 theorem sig2_b (wf : d.WF) {x : Key} (hx : x ∈ d.canon) :
     Int.tmod (d.sig2 x).2.2.2 d.N = d.N - 1 - x.2.1 ∧ (d.sig2 x).2.1 = d.N - 1 - Int.tmod x.2.2.2 d.N ∧
@@ -180,9 +183,12 @@ theorem sig2_b (wf : d.WF) {x : Key} (hx : x ∈ d.canon) :
   have := wf.heven
   have := wf.hfan
   have := wf.hh
-  unfold Dims.sig2 at g9 ⊢
-  simp only at *
-  omega
+  have hb' : (d.sig2 x).2.2.2 = d.N - 1 - Int.tmod x.2.2.2 d.N + (x.2.2.2 - x.2.1) := rfl
+  rw [hb'] at g9 ⊢
+  refine ⟨?_, rfl, ?_, ?_⟩
+  · rcases h9 with h9 | h9 <;> rcases g9 with g9 | g9 <;> omega
+  · rcases h9 with h9 | h9 <;> omega
+  · rcases h9 with h9 | h9 <;> omega
 
 theorem K_sig1 (wf : d.WF) {x : Key} (hx : x ∈ d.canon) (hr : x.1 < x.2.2.1) :
     d.K1 (d.sig1 x) = d.K3 x ∧ d.K2 (d.sig1 x) = d.K4 x ∧ d.K3 (d.sig1 x) = d.K1 x ∧ d.K4 (d.sig1 x) = d.K2 x := by
@@ -216,9 +222,7 @@ theorem K_sig2 (wf : d.WF) {x : Key} (hx : x ∈ d.canon) (hr : x.1 < x.2.2.1) :
 
 theorem K_sig0 (d : Dims) (x : Key) :
     d.K1 (d.sig0 x) = d.K3 x ∧ d.K2 (d.sig0 x) = d.K4 x ∧ d.K3 (d.sig0 x) = d.K1 x ∧ d.K4 (d.sig0 x) = d.K2 x := by
-  unfold Dims.K1 Dims.K2 Dims.K3 Dims.K4 Dims.sig0
-  simp only [sub_sub_cancel]
-  exact ⟨rfl, rfl, rfl, rfl⟩
+  refine ⟨?_, ?_, ?_, ?_⟩ <;> simp only [Dims.K1, Dims.K2, Dims.K3, Dims.K4, Dims.sig0, sub_sub_cancel]
 
 theorem fourTerms_cross (d : Dims) {ra rb : Int} (h : ra ≠ rb) : d.fourTerms ra rb = true := by
   unfold Dims.fourTerms
@@ -227,11 +231,7 @@ theorem fourTerms_cross (d : Dims) {ra rb : Int} (h : ra ≠ rb) : d.fourTerms r
 
 theorem fourTerms_sig0 (d : Dims) (r : Int) : d.fourTerms (d.R - 1 - r) (d.R - 1 - r) = d.fourTerms r r := by
   unfold Dims.fourTerms
-  simp only [Bool.or_self, sub_sub_cancel]
-  by_cases h : r = d.R - 1 - r
-  · rw [← h]
-  · have h' : d.R - 1 - r ≠ r := fun h' => h h'.symm
-    simp [h, h']
+  rw [sub_sub_cancel, bne_comm]
 
 /-- in-ring entries: the axial mirror image is summed over the same elements -/
 theorem mirrorKeys_sig0 (d : Dims) {x : Key} (hr : x.1 = x.2.2.1) : (d.mirrorKeys (d.sig0 x)).Perm (d.mirrorKeys x) := by
@@ -248,7 +248,7 @@ theorem mirrorKeys_sig0 (d : Dims) {x : Key} (hr : x.1 = x.2.2.1) : (d.mirrorKey
   · rename_i hft
     -- the LOR is its own axial mirror image
     have hc : d.R - 1 - x.1 = x.1 := by
-      have := (Bool.not_eq_true _).1 hft
+      have : d.fourTerms x.1 x.2.2.1 = false := by simpa using hft
       unfold Dims.fourTerms at this
       simp only [Bool.or_eq_false_iff, bne_eq_false_iff_eq] at this
       exact this.1.symm
